@@ -27,7 +27,7 @@ ALPHABET = [
     ("remove_node", 0), ("remove_node", 2), ("remove_nodes", [0, 1]),
     ("set_weight", ((0,), (1,)), 5), ("set_weight", ((0, 1), (2,)), 1),
     ("set_node_metadata", 0, {"a": 1}), ("set_edge_metadata", ((0,), (1,)), {"b": 2}),
-    ("set_attr_node", 0, "x", 1), ("set_attr_edge", ((0,), (1,)), "y", 2),
+    ("set_attr_node", 0, "x", 1), ("set_attr_node", 2, "z", 3), ("set_attr_edge", ((0,), (1,)), "y", 2),
     ("del_attr_node", 0, "x"), ("del_attr_edge", ((0,), (1,)), "y"),
     ("clear",), ("copy",),
 ]
